@@ -520,6 +520,7 @@ func c17R2(c *Check, validate, merge, defaults, oidcURLs *ssa.Function) {
 	}
 	chk(oidcURLs, "callback/parseable", "validateURL", idOIDCConfig+".GetCallbackUri", "callback URI must parse")
 	rootPathTestShape(c)
+	defaultConfigNotAppended(c, "C17.R2")
 	chk(oidcURLs, "callback/non-root", "hasRootPath", idOIDCConfig+".GetCallbackUri", "callback URI must not have the root path")
 	chk(merge, "logout/non-root", "isRootPath", pkgCfgOIDC+".LogoutConfig.GetPath", "logout path must not be the root path")
 	// logout path != callback path on the merged filter config
@@ -1086,4 +1087,75 @@ func rootPathTestShape(c *Check) {
 		ok2, why2 = comparesBoth(hasRoot, pathOfParsedParam)
 	}
 	c.Obl(ok2, "C17.R2", "root-path-test/hasRootPath", P.Pos(hasRoot.Pos()), "hasRootPath(u) tests url.Parse(u).Path for \"/\" or \"\"", "hasRootPath: "+why2)
+}
+
+// defaultConfigNotAppended: the loader never appends onto a slice that belongs to the shared default OIDC
+// configuration: `append(default.GetScopes(), …)` writes into the spare capacity of the default's backing
+// array, which the merged configurations of all chains then alias — a later chain's append overwrites an
+// earlier chain's last element (its openid scope).
+func defaultConfigNotAppended(c *Check, rule string) {
+	P := c.P
+	fromDefault := func(v ssa.Value) bool {
+		for d := range dataDeps(v) {
+			if base, f, ok := fieldLoad(d); ok && f != nil && f.Name() == "DefaultOidcConfig" && base != nil {
+				return true
+			}
+			if cl, isC := d.(*ssa.Call); isC && isCallTo(cl, pkgCfgV1+".Config.GetDefaultOidcConfig") {
+				return true
+			}
+		}
+		return false
+	}
+	n := 0
+	for _, fn := range P.Funcs {
+		if pkgPathOf(fn) != pkgInt {
+			continue
+		}
+		for _, ci := range allCalls(fn) {
+			cc, ok := ci.(*ssa.Call)
+			if !ok {
+				continue
+			}
+			bi, isB := cc.Call.Value.(*ssa.Builtin)
+			if !isB || bi.Name() != "append" || len(cc.Call.Args) == 0 {
+				continue
+			}
+			n++
+			bad := ""
+			for _, l := range LeavesInl(cc.Call.Args[0], leafOpts{noConcat: true}, 2, func(f *ssa.Function) bool { return pkgPathOf(f) != pkgInt }) {
+				l = resolveCell(stripConv(l))
+				if cl, _, isC := asCall(l); isC && cl != cc && len(cl.Common().Args) > 0 && fromDefault(cl.Common().Args[0]) {
+					bad = descDepth(l, 3)
+				}
+				if base, f, isL := fieldLoad(l); isL && f != nil && fromDefault(base) {
+					bad = descDepth(l, 3)
+				}
+				// a parameter of a helper: what the callers hand over
+				if p, isP := l.(*ssa.Parameter); isP && p.Parent() == fn {
+					for k, q := range fn.Params {
+						if q != p {
+							continue
+						}
+						for _, cs := range callsToFn2(P, fn) {
+							if k >= len(cs.Common().Args) {
+								continue
+							}
+							for _, al := range Leaves(cs.Common().Args[k], leafOpts{noConcat: true}) {
+								al = resolveCell(stripConv(al))
+								if cl, _, isC := asCall(al); isC && len(cl.Common().Args) > 0 && fromDefault(cl.Common().Args[0]) {
+									bad = descDepth(al, 3) + " (passed to " + fnKey(fn) + ")"
+								}
+								if base, f, isL := fieldLoad(al); isL && f != nil && fromDefault(base) {
+									bad = descDepth(al, 3) + " (passed to " + fnKey(fn) + ")"
+								}
+							}
+						}
+					}
+				}
+			}
+			c.Obl(bad == "", rule, "default-config-not-appended/"+nthCallKey(cc), P.Pos(cc.Pos()), "append grows a list of its own",
+				"append grows "+bad+", a list of the shared default OIDC configuration: the merged configurations of different chains share its backing array and overwrite each other's elements")
+		}
+	}
+	c.Obl(n >= 1, rule, "appends-in-loader", "-", fmt.Sprintf("%d append sites in the loader", n), "no append found in the loader (anchor lost)")
 }
